@@ -10,11 +10,12 @@ import Httoop.Model.PyInt
 namespace Httoop.Host
 open Httoop Httoop.Element
 
-/-- RE_HOSTNAME `^([^\x00-\x1F\x7F()^'"<>@,;:/\[\]={} \t\\"]+)$` on one (ISO-8859-1 decoded) character -/
+/-- RE_HOSTNAME `^([^\x00-\x1F\x7F()^'"<>@,;:/?#\[\]={} \t\\"]+)$` on one (ISO-8859-1 decoded) character
+    (`?` and `#` since the F63 repair) -/
 def isHostnameChar (b : Byte) : Bool :=
   !(b ≤ 0x1F || b == 0x7F || b == 0x28 || b == 0x29 || b == 0x5E || b == 0x27 || b == 0x22 || b == 0x3C || b == 0x3E ||
     b == 0x40 || b == 0x2C || b == 0x3B || b == 0x3A || b == 0x2F || b == 0x5B || b == 0x5D || b == 0x3D || b == 0x7B ||
-    b == 0x7D || b == 0x20 || b == 0x09 || b == 0x5C)
+    b == 0x7D || b == 0x20 || b == 0x09 || b == 0x5C || b == 0x3F || b == 0x23)
 
 structure HostVal where
   host : Bytes                -- `host.host` (brackets removed), Latin-1 octets of the text
@@ -25,6 +26,30 @@ def rsplitColon (v : Bytes) : Option (Bytes × Bytes) :=
   match splitOnce [0x3A] v.reverse with
   | some (l, r) => some (r.reverse, l.reverse)
   | none => none
+
+/-- HOSTPORT `^(.*?)(?::(\d+))?$`: the text in front of the last colon and the digits after it -/
+def splitHostPort (v : Bytes) : Bytes × Bytes :=
+  match rsplitColon v with
+  | some (h, p) => if !p.isEmpty && p.all isDigit then (h, p) else (v, [])
+  | none => (v, [])
+
+def unbracket (host : Bytes) : Bytes :=
+  if startsWith host [0x5B] && Element.endsWith host [0x5D] then (host.drop 1).dropLast else host
+
+/-- the rest of `sanitize()` once host and port text are separated -/
+def classify (host port : Bytes) : R HostVal :=
+  if port.length > 4300 then .error .invalidHeader       -- `integer(port)`: int() digit limit → InvalidHeader (F35 repair)
+  else
+    let portN : Option Nat := if port.isEmpty then none else some (Inet.decNat port)
+    let isIp := (Inet.pton6 host).isSome || (Inet.pton4 host).isSome
+    let isFqdn := !host.isEmpty && host.all isHostnameChar
+    if isIp || isFqdn then .ok { host := host, port := match portN with | some 0 => none | p => p }
+    else .error .invalidHeader
+
+/-- `Host.sanitize()` on the lower-cased value: host and optional port, brackets removed, the host an address literal or a
+    text of hostname characters -/
+def sanitize (v : Bytes) : R HostVal :=
+  classify (unbracket (splitHostPort v).1) (splitHostPort v).2
 
 /-- `Host.parse(value)` = generic element parse, then `sanitize`.  Only the element *value* matters
     (parameters are parsed — and may make the field invalid — but are not used). -/
@@ -39,18 +64,7 @@ def parse (value : Bytes) : R HostVal :=
       let v := v0.map fun b => if b < 0x80 then toLower b else b       -- str.lower(): ASCII here; Latin-1 letters: see below
       if v0.any (fun b => b ≥ 0xC0 && b != 0xD7 && b ≤ 0xDE) then .error needsOracle   -- upper-case Latin-1 letters would be lowered
       else if v.contains 0x0A then .error needsOracle          -- `.` / `$` of the regexes around line feeds
-      else
-        let (host, port) := match rsplitColon v with
-          | some (h, p) => if !p.isEmpty && p.all isDigit then (h, p) else (v, [])
-          | none => (v, [])
-        let host := if startsWith host [0x5B] && Element.endsWith host [0x5D] then (host.drop 1).dropLast else host
-        if port.length > 4300 then .error .invalidHeader       -- `integer(port)`: int() digit limit → InvalidHeader (F35 repair)
-        else
-          let portN : Option Nat := if port.isEmpty then none else some (Inet.decNat port)
-          let isIp := (Inet.pton6 host).isSome || (Inet.pton4 host).isSome
-          let isFqdn := !host.isEmpty && host.all isHostnameChar
-          if isIp || isFqdn then .ok { host := host, port := match portN with | some 0 => none | p => p }
-          else .error .invalidHeader
+      else sanitize v
 
 /-- a generic element field whose value list the parser looks at (`headers.values(name)`) -/
 def values (fieldvalue : Bytes) : R (List Bytes) :=
